@@ -72,7 +72,7 @@ func init() {
 		ID:          "C16",
 		Title:       "System entities can only be changed from a system context",
 		Technique:   "static analysis: who-may-write rule for the system flag (written only on the create edge), hook-placement rule (update check before the persist, create check after it, delete check unconditional), complete decision table of checkOperation, constant-result rule for the two context kinds; error-holder sharing between child and parent persist contexts",
-		LevelText:   "Decides on every path: the system flag field is written only by code reachable exclusively through the is-create edge of SetBaseValues; the constraint checks an update in ProcessBeforeUpdate (i.e. against the stored flag, before anything is persisted), a create in ProcessAfterUpdate and a delete unconditionally, recording the refusal in the error holder; checkOperation refuses exactly when the flag is set and the context is not a system context (8-row table); ordinary contexts answer IsSystemContext=false and system contexts true, and wrapping is idempotent. Registration of the constraint by user stores and the state after a refused operation (C07) are not decided here. A refusal recorded in the child's error holder survives the hand-over to the parent persist context (the parent bucket adopts the child's holder, not the reverse). Added later: the error result of the delete-constraint step is looked at on every path (LOOKEDAT); the flag read is followed into predicate helpers the hooks hand their own constraint and context to. Added in rounds 8-9: the context fn runs with is the caller's own (TXFN); the indexing context records into the operation's own holder (HOLDER); create-or-not handed to the contexts is a constant of the entry point (CREATECTX). Added in round 10: where fn runs with what setTx answered, every setTx answers with the context it was called on (TXFN). Added in round 11: the persist context writes through the bucket object the indexing context records into (SAMEBUCKET).",
+		LevelText:   "Decides on every path: the system flag field is written only by code reachable exclusively through the is-create edge of SetBaseValues; the constraint checks an update in ProcessBeforeUpdate (i.e. against the stored flag, before anything is persisted), a create in ProcessAfterUpdate and a delete unconditionally, recording the refusal in the error holder; checkOperation refuses exactly when the flag is set and the context is not a system context (8-row table); ordinary contexts answer IsSystemContext=false and system contexts true, and wrapping is idempotent. Registration of the constraint by user stores and the state after a refused operation (C07) are not decided here. A refusal recorded in the child's error holder survives the hand-over to the parent persist context (the parent bucket adopts the child's holder, not the reverse). Added later: the error result of the delete-constraint step is looked at on every path (LOOKEDAT); the flag read is followed into predicate helpers the hooks hand their own constraint and context to. Added in rounds 8-9: the context fn runs with is the caller's own (TXFN); the indexing context records into the operation's own holder (HOLDER); create-or-not handed to the contexts is a constant of the entry point (CREATECTX). Added in round 10: where fn runs with what setTx answered, every setTx answers with the context it was called on (TXFN). Added in round 11: the persist context writes through the bucket object the indexing context records into (SAMEBUCKET). Added in round 12: Update reaches success only through ProcessBeforeUpdate unless a child store handled it (HOOKSRUN); the hooks of every level of the store chain run (PROTOCOL, cross-listed).",
 		LevelNote:   "Trusted: go/types, x/tools SSA, DECIDE interpreter.",
 		DesignRef:   "DESIGN.md C16",
 		Explanation: "Sites: every setter call whose field-name argument is FieldIsSystemEntity; systemEntityConstraint methods; mutateContext/systemMutateContext.IsSystemContext; NewSystemMutateContext.",
